@@ -61,7 +61,7 @@ func init() {
 			func(s *e1.Stats) bool { return s.SessionsEnded >= 1 && s.SIDsReused >= 1 })
 		partGated(c, a, []func(*sut.Proc) *e2.Result{e2.G1JoinVsLastLeave, e2.G2TwoLastLeaves, e2.G3LateUnregister, e2.G3cLastLeaveVsCreate}, c.Pick(2, 10))
 		partRegistryStorms(c, a)
-		partStepThrough(c, a, []string{"switch", "leave", "join"})
+		partStepThrough(c, a, []string{"lastleave", "create", "switch", "join", "leave"})
 		return a.finish(c)
 	}
 }
